@@ -134,11 +134,15 @@ func newC10Builder(state string) (*c10Target, error) {
 	return &c10Target{rb: rb, env: env}, nil
 }
 
-func newC10Pool() (*c10Target, error) {
+func newC10Pool(state string) (*c10Target, error) {
 	env := newSchedEnv()
 	p, err := engine.NewGenginePool(1, 2, 1, c10S0Text(), c10Apis(env))
 	if err != nil {
 		return nil, err
+	}
+	if state != "s0" {
+		// a pool cannot be constructed empty: the empty state of a pool is the cleared pool
+		p.ClearPoolRules()
 	}
 	return &c10Target{pool: p, env: env}, nil
 }
@@ -313,9 +317,9 @@ func init() {
 				mk("BuildRuleFromString", true, b1, e1)
 				b2, e2 := newC10Builder(c.State)
 				mk("BuildRuleWithIncremental", false, b2, e2)
-				p4, e4 := newC10Pool()
+				p4, e4 := newC10Pool(c.State)
 				mk("UpdatePooledRules", true, p4, e4)
-				p5, e5 := newC10Pool()
+				p5, e5 := newC10Pool(c.State)
 				mk("UpdatePooledRulesIncremental", false, p5, e5)
 			}
 			if x.Failed() {
@@ -429,20 +433,21 @@ func init() {
 					x.Violation("full-differs:NewGenginePool", "NewGenginePool installed a different set than BuildRuleFromString:\n%s\nvs\n%s\ntext %q", k, fullKey, truncate(text, 400))
 				}
 			}
-			if c.State == "s0" {
+			{
 				if a, b := after["BuildRuleWithIncremental"].key(false), after["UpdatePooledRulesIncremental"].key(false); a != b {
 					x.Violation("incremental-differs", "incremental build and pool incremental update installed different sets:\n%s\nvs\n%s\ntext %q", a, b, truncate(text, 400))
 				}
 			}
-			// incremental = S0 overridden by the full set
+			// incremental = S0 (or the empty / cleared state) overridden by the full set
 			fullObs := after["BuildRuleFromString"]
+			s0 := c10S0
+			if c.State != "s0" {
+				s0 = map[string]int64{}
+			}
 			for _, en := range []string{"BuildRuleWithIncremental", "UpdatePooledRulesIncremental"} {
-				if en == "BuildRuleWithIncremental" && c.State != "s0" {
-					continue
-				}
 				io := after[en]
 				for _, n := range names {
-					wantExist := fullObs.Exist[n] || c10S0[n] != 0
+					wantExist := fullObs.Exist[n] || s0[n] != 0
 					if io.Exist[n] != wantExist {
 						x.Violation("incremental-set:"+en, "%s: rule %q exists=%v, want %v (S0 overridden by the text's rules)\ntext %q", en, n, io.Exist[n], wantExist, truncate(text, 400))
 					}
@@ -450,7 +455,7 @@ func init() {
 						if io.Results[n] != fullObs.Results[n] {
 							x.Violation("incremental-body:"+en, "%s: rule %q yields %q, the text's version yields %q", en, n, io.Results[n], fullObs.Results[n])
 						}
-					} else if tag, ok := c10S0[n]; ok && io.Results[n] != fmt.Sprint(tag) {
+					} else if tag, ok := s0[n]; ok && io.Results[n] != fmt.Sprint(tag) {
 						x.Violation("incremental-untouched:"+en, "%s: untouched rule %q of S0 yields %q, want %d", en, n, io.Results[n], tag)
 					}
 				}
